@@ -844,7 +844,96 @@ def replay_shave(r):
     return kind in fails, f"failures={sorted(fails)} shaving=({st_sh},{sh}) bc=({st_bc},{bc}) entry={entry}"
 
 
-HANDLERS = {"shave": replay_shave, "prop": replay_prop, "heur": replay_heur, "split": replay_split, "reducer": replay_reducer, "stack": replay_stack, "solve": replay_solve, "varheur": replay_varheur, "lemma": replay_lemma}
+def real_model(inst):
+    """runs the real solver on a shipped model instance and returns its solution count or optimum"""
+    from nucs.solvers.backtrack_solver import BacktrackSolver
+    import nucs.heuristics.heuristics as H
+
+    name, args = inst["model"], inst["args"]
+    kw = dict(log_level="CRITICAL")
+    if name == "queens":
+        from nucs.examples.queens.queens_problem import QueensProblem as K
+    elif name == "latin_square":
+        from nucs.problems.latin_square_problem import LatinSquareProblem
+
+        K = lambda n: LatinSquareProblem(list(range(n)))  # noqa: E731
+    elif name == "latin_square_rc":
+        from nucs.problems.latin_square_problem import LatinSquareRCProblem as K
+    elif name == "quasigroup5":
+        from nucs.examples.quasigroup.quasigroup_problem import Quasigroup5Problem as K
+    elif name == "magic_square":
+        from nucs.examples.magic_square.magic_square_problem import MagicSquareProblem as K
+    elif name == "magic_sequence":
+        from nucs.examples.magic_sequence.magic_sequence_problem import MagicSequenceProblem as K
+    elif name == "golomb":
+        from nucs.examples.golomb.golomb_problem import GolombProblem as K
+    elif name == "bibd":
+        from nucs.examples.bibd.bibd_problem import BIBDProblem as K
+    elif name == "schur_lemma":
+        from nucs.examples.schur_lemma.schur_lemma_problem import SchurLemmaProblem as K
+    elif name == "knapsack":
+        from nucs.examples.knapsack.knapsack_problem import KnapsackProblem
+
+        w = [40, 40, 38, 38, 36, 36, 34, 34, 32, 32, 30, 30, 28, 28, 26, 26, 24, 24, 22, 22]
+        K = lambda: KnapsackProblem(w, w, 55)  # noqa: E731
+    elif name == "circuit":
+        from nucs.problems.circuit_problem import CircuitProblem as K
+    elif name == "tsp":
+        from nucs.examples.tsp.tsp_problem import TSPProblem as K
+    elif name == "sudoku":
+        from nucs.examples.sudoku.sudoku_problem import SudokuProblem as K
+    elif name == "alpha":
+        from nucs.examples.alpha.alpha_problem import AlphaProblem as K
+    elif name == "donald":
+        from nucs.examples.donald.donald_problem import DonaldProblem as K
+    else:
+        raise KeyError(name)
+    results = {}
+    configs = inst.get("configs") or [dict(), dict(dom_heuristic_idx=H.DOM_HEURISTIC_MAX_VALUE), dict(var_heuristic_idx=H.VAR_HEURISTIC_SMALLEST_DOMAIN, dom_heuristic_idx=H.DOM_HEURISTIC_SPLIT_LOW)]
+    for ci, cfg in enumerate(configs):
+        pb = K(*args)
+        if name == "latin_square_rc" or name == "quasigroup5":
+            n = args[0]
+            cfg = dict(cfg, decision_domains=list(range(n * n)))
+        if name == "bibd":
+            cfg = dict(cfg, decision_domains=list(range(args[0] * args[1])))
+        s = BacktrackSolver(pb, **dict(kw, **cfg))
+        if "optimum" in inst:
+            if name == "golomb":
+                sol = s.minimize(int(pb.length_idx))
+                results[ci] = None if sol is None else int(sol[int(pb.length_idx)])
+            elif name == "knapsack":
+                sol = s.maximize(pb.weight)
+                results[ci] = None if sol is None else int(sol[pb.weight])
+            else:
+                sol = s.minimize(pb.shr_domain_nb - 1)
+                results[ci] = None if sol is None else int(sol[pb.shr_domain_nb - 1])
+        else:
+            s.solve_all()
+            results[ci] = int(s.get_statistics()["SOLVER_SOLUTION_NB"])
+    return results
+
+
+def replay_models(r):
+    """r['instances']: list of dict(model, args, count|optimum). reproduced iff the real solver disagrees with the recorded value"""
+    bad = []
+    for inst in r["instances"]:
+        exp = inst.get("count", inst.get("optimum"))
+        if exp is None:
+            continue
+        res = real_model(inst)
+        if any(v != exp for v in res.values()):
+            bad.append((inst["model"], inst["args"] if inst["model"] not in ("sudoku", "tsp") else "...", exp, res))
+    return bool(bad), f"disagreements: {bad}" if bad else f"{len(r['instances'])} instances agree with the real solver under 3 configurations"
+
+
+def validate_models(w):
+    exp = w.get("count", w.get("optimum"))
+    res = real_model(w)
+    return all(v == exp for v in res.values()), f"real solver: {res}, expected {exp}"
+
+
+HANDLERS = {"models": replay_models, "shave": replay_shave, "prop": replay_prop, "heur": replay_heur, "split": replay_split, "reducer": replay_reducer, "stack": replay_stack, "solve": replay_solve, "varheur": replay_varheur, "lemma": replay_lemma}
 
 
 def validate_prop(w):
@@ -853,7 +942,7 @@ def validate_prop(w):
     return ok, f"real: status={st} out={out}"
 
 
-VALIDATORS = {"prop": validate_prop, "split": validate_split, "solve": validate_solve}
+VALIDATORS = {"prop": validate_prop, "split": validate_split, "solve": validate_solve, "models": validate_models}
 
 
 def _load_ext():
